@@ -755,6 +755,11 @@ where
     let ps_ref = Rc::new(RefCell::new(ps));
     let job_futures: FuturesUnordered<Pin<Box<dyn Future<Output = ()>>>> = FuturesUnordered::new();
     pin_mut!(job_futures);
+    // The two loops below leave through `?` on errors that are not the failure
+    // of a job (a cyclic dependency, an unreadable .do file, a database error).
+    // They run inside one block so that such an error does not return from
+    // this function while jobs are still running: see after the block.
+    let body: Result<(), RedoError> = async {
     {
         let mut seen: HashSet<RedoPathBuf> = HashSet::new();
         let mut seen_ids: HashSet<i64> = HashSet::new();
@@ -946,6 +951,24 @@ where
                 }
             }
         }
+    }
+    Ok(())
+    }
+    .await;
+    if let Err(e) = body {
+        // Returning now would drop the locks of the jobs that are still
+        // running and lose their results (their scripts would run on as
+        // orphans, and could be started a second time by someone else).  Let
+        // them finish and record them; nothing new is started.
+        while server.is_running() {
+            let jobs_done_future = server.wait_all();
+            pin_mut!(jobs_done_future);
+            if wait_for(jobs_done_future, job_futures.as_mut()).await.is_err() {
+                break;
+            }
+        }
+        job_futures.fold((), |_, _| future::ready(())).await;
+        return Err(e);
     }
     // TODO(maybe): Use !job_futures.is_empty() instead of server.is_running() in
     // the above loop.
